@@ -62,3 +62,8 @@ Example bq_client_example :
              [{| c_entry := EnVal; c_op := OPop sleeper |}; {| c_entry := EnPtr; c_op := OPop sleeper |}]] in
   calls_ok cp = true /\ usage_ok 1 (declared cp) = true /\ lower_progs cp = declared cp.
 Proof. cbv zeta. repeat split; reflexivity. Qed.
+
+(* swap (= move construction / move assignment) exchanges the two queues member by member: the destination becomes exactly
+   the source, indices included, so it holds the elements the source held *)
+Theorem bq_swap_exchanges : forall this other, swap_this this other = other /\ swap_other this other = this.
+Proof. intros [s1 m1 b1 p1 q1] [s2 m2 b2 p2 q2]. split; reflexivity. Qed.
